@@ -166,6 +166,33 @@ func RunC15(r *sim.Run) {
 			c.victim = true
 		}
 	}
+	// the endpoint may be drained first: an update marks it disabled (requests in
+	// flight go on, C15 says nothing else about them), a later update removes it
+	if removal != "delete-cluster" && t.Draw(3) == 0 {
+		a1 := a.DeepCopy()
+		for i := range a1.Spec.Servers {
+			if a1.Spec.Servers[i].Endpoint == e0 {
+				a1.Spec.Servers[i].Disabled = boolPtr(true)
+			}
+		}
+		a1.Spec.DispatchPolicies = []proxyv1alpha1.DispatchPolicy{pol("get", []string{e1}), pol("list", []string{e1})}
+		if err := w.Apply(a1); err != nil {
+			r.Inconclusive("apply: " + err.Error())
+			return
+		}
+		w.Boundary()
+		w.Advance([]time.Duration{100 * time.Millisecond, 2 * time.Second, 6 * time.Second}[t.Draw(3)])
+		w.Boundary()
+		r.Probe("endpoint_drained_before_removal")
+		r.Logf("e0 disabled (drained) before its removal")
+		// requests that ended during the drain are no victims of the removal
+		for _, c := range reqs {
+			if c.victim && c.q.Done {
+				c.victim = false
+			}
+			c.rawAt = c.q.Raw.Len()
+		}
+	}
 	removalAt := w.Now()
 	switch removal {
 	case "delete-cluster":
